@@ -597,21 +597,34 @@ func EdgesWhere(fn *ssa.Function, pred func(Cmp) bool) map[Edge]bool {
 			}
 			break
 		}
-		cs, bind, ok := PredicateImplied(cond)
-		if !ok {
-			continue
-		}
-		restore := Bind(bind)
-		for _, c := range cs {
-			if pred(c) || pred(c.Flip()) {
-				if taken {
-					out[Edge{b, b.Succs[0]}] = true
-				} else {
-					out[Edge{b, b.Succs[1]}] = true
+		if cs, bind, ok := PredicateImplied(cond); ok {
+			restore := Bind(bind)
+			for _, c := range cs {
+				if pred(c) || pred(c.Flip()) {
+					if taken {
+						out[Edge{b, b.Succs[0]}] = true
+					} else {
+						out[Edge{b, b.Succs[1]}] = true
+					}
 				}
 			}
+			restore()
 		}
-		restore()
+		// ... and the edge on which it returned false establishes the negation of every
+		// disjunct (`outOfBounds(...)` false: all the bounds hold)
+		if cs, bind, ok := PredicateRefuted(cond); ok {
+			restore := Bind(bind)
+			for _, c := range cs {
+				if pred(c) || pred(c.Flip()) {
+					if taken {
+						out[Edge{b, b.Succs[1]}] = true
+					} else {
+						out[Edge{b, b.Succs[0]}] = true
+					}
+				}
+			}
+			restore()
+		}
 	}
 	for pass := 0; pass < 3; pass++ {
 		for _, b := range fn.Blocks {
@@ -729,6 +742,85 @@ func PredicateImplied(cond ssa.Value) ([]Cmp, Binding, bool) {
 			var live []int
 			for i, e := range x.Edges {
 				if k, isK := e.(*ssa.Const); isK && k.Value != nil && k.Value.String() == "false" {
+					continue
+				}
+				live = append(live, i)
+			}
+			if len(live) != 1 {
+				return false
+			}
+			return collect(x.Edges[live[0]], x.Block().Preds[live[0]], depth+1)
+		}
+		return false
+	}
+	if !collect(rets[0].Results[0], rets[0].Block(), 0) {
+		return nil, nil, false
+	}
+	b := Binding{}
+	for i, p := range g.Params {
+		if i < len(call.Call.Args) {
+			b[p] = call.Call.Args[i]
+		}
+	}
+	return out, b, true
+}
+
+// PredicateRefuted is the dual of PredicateImplied: the comparisons that hold whenever a
+// pure predicate helper whose body is a disjunction of comparisons returns false (the
+// negation of every disjunct).
+func PredicateRefuted(cond ssa.Value) ([]Cmp, Binding, bool) {
+	call, ok := cond.(*ssa.Call)
+	if !ok {
+		return nil, nil, false
+	}
+	g := call.Call.StaticCallee()
+	if g == nil || g.Blocks == nil || !InRepo(g) || g.Signature.Results().Len() != 1 {
+		return nil, nil, false
+	}
+	if b, isB := g.Signature.Results().At(0).Type().Underlying().(*types.Basic); !isB || b.Kind() != types.Bool {
+		return nil, nil, false
+	}
+	var rets []*ssa.Return
+	pure := true
+	Instrs(g, func(in ssa.Instruction) {
+		switch x := in.(type) {
+		case *ssa.Return:
+			rets = append(rets, x)
+		case *ssa.Store, *ssa.MapUpdate, *ssa.Send, *ssa.Go, *ssa.Defer:
+			pure = false
+		case *ssa.Call:
+			if _, isBuiltin := x.Call.Value.(*ssa.Builtin); !isBuiltin {
+				pure = false
+			}
+		}
+	})
+	if !pure || len(rets) != 1 {
+		return nil, nil, false
+	}
+	var out []Cmp
+	var collect func(v ssa.Value, blk *ssa.BasicBlock, depth int) bool
+	collect = func(v ssa.Value, blk *ssa.BasicBlock, depth int) bool {
+		if depth > 6 {
+			return false
+		}
+		switch x := v.(type) {
+		case *ssa.BinOp, *ssa.UnOp:
+			c, ok := (Guard{nil, v, false}).AsCmp()
+			if !ok {
+				return false
+			}
+			out = append(out, c)
+			for _, gd := range BlockGuards(blk) {
+				if gc, ok := gd.AsCmp(); ok {
+					out = append(out, gc)
+				}
+			}
+			return true
+		case *ssa.Phi:
+			// a || b: the only non-true edge carries b, evaluated behind !a
+			var live []int
+			for i, e := range x.Edges {
+				if k, isK := e.(*ssa.Const); isK && k.Value != nil && k.Value.String() == "true" {
 					continue
 				}
 				live = append(live, i)
